@@ -105,7 +105,7 @@ class LocalInference:
                     return self.mirror_descent_auto(alpha/2, iters, callback)
                 else:
                     #print('Reducing learning rate and continuing', alpha/2)
-                    model.damping = (0.9 + model.damping) / 2.0
+                    model.damping = (0.9 + getattr(model, 'damping', 0.5)) / 2.0
                     if self.log: print('Increasing damping and continuing', model.damping)
                     alpha *= 0.5
             prev_l = l
